@@ -1,9 +1,10 @@
 (* C15 -- Simulated paths are running sums on the product dates within the time-step cap.
-   Only statements; proofs in Proofs/C15_Paths.v, Proofs/C15_Finer.v.  Models: Model/Paths.v (hand models of the
-   path builders of levyprocess.py / markovchain.py / couplingmarkovchain.py and of both copies of
-   build_finer_grid), tied to the source by the correspondence through process.simulate_one_path(). *)
+   Only statements; proofs in Proofs/C15_Paths.v, Proofs/C15_Finer.v, Proofs/C15_Link.v, Proofs/C15_Nd.v.  Models: Model/Paths.v (hand
+   models of the path builders of levyprocess.py / markovchain.py / couplingmarkovchain.py and of both copies of build_finer_grid) and
+   Model/PathsNd.v (the d-dimensional Levy-copula simulators of markovchainlevycopula.py and couplinglevycopula.py, the real
+   jump_times_from_nb_of_jumps), tied to the source by the correspondence through process.simulate_one_path(). *)
 From Coq Require Import ZArith QArith List.
-From RV Require Import Base.QB Model.Paths Proofs.C15_Paths Proofs.C15_Finer Proofs.C15_Link.
+From RV Require Import Base.QB Model.Paths Model.PathsNd Proofs.C15_Paths Proofs.C15_Finer Proofs.C15_Link Proofs.C15_Nd.
 Import ListNotations.
 Open Scope Q_scope.
 
@@ -93,6 +94,76 @@ Theorem C15_finer_grid_aligned : forall eps fuel (l : list (Q * (Q * Q))),
   /\ map (fun x => (fst x, snd (snd x))) (refine (0, 0) fuel eps l) = refine 0 fuel eps (map (fun x => (fst x, snd (snd x))) l).
 Proof. intros. split. apply (refine_proj (@fst Q Q)). apply (refine_proj (@snd Q Q)). Qed.
 
+(* ------------------------------------------------------------------ d-dimensional Levy-copula simulators (Model/PathsNd.v) *)
+(* fixed product dates, MarkovChainLevyCopula (nd_fixed_jump_path) and CouplingProcessLevyCopula (fine and coarse are both
+   nd_coupled_fixed_component, of the fine grid values resp. of the coupling states): for EVERY component k < d, any number of dates and of
+   jumps per interval, the value at date j+1 is the sum of the k-th components of ALL increments of the intervals 0..j (running sum, not the
+   interval total: F-C15-2/3/6), and the date-to-date increment uses the variates of that interval only *)
+Theorem C15_nd_fixed_dates : forall d k intervals, (k < d)%nat -> wf2 d intervals -> forall j, (j < length intervals)%nat ->
+  let ck := map (map (comp k)) intervals in
+  (nth 0 (nd_fixed_jump_path d intervals) [] = vzero d
+   /\ comp k (nth (S j) (nd_fixed_jump_path d intervals) []) == qsum (concat (firstn (S j) ck))
+   /\ comp k (nth (S j) (nd_fixed_jump_path d intervals) []) - comp k (nth j (nd_fixed_jump_path d intervals) []) == qsum (nth j ck []))
+  /\ (comp k (nth 0 (nd_coupled_fixed_component d intervals) []) == 0
+   /\ comp k (nth (S j) (nd_coupled_fixed_component d intervals) []) == qsum (concat (firstn (S j) ck))
+   /\ comp k (nth (S j) (nd_coupled_fixed_component d intervals) []) - comp k (nth j (nd_coupled_fixed_component d intervals) []) == qsum (nth j ck [])).
+Proof. exact nd_fixed_dates. Qed.
+
+(* jump times, d-dimensional chain carried over the product dates (chain_over_intervals on (n_k, d) arrays): zero column first, every
+   component the running sum of all its increments so far for ANY number of product intervals, last column repeated at the maturity *)
+Theorem C15_nd_jump_values : forall d k incs, (k < d)%nat -> wf2 d incs ->
+  let vals := nd_jump_values d incs in
+  let path := nd_assemble_values d vals in
+  nth 0 path [] = vzero d
+  /\ Forall2 Qeq (map (comp k) vals) (levy_jump_values (map (map (comp k)) incs))
+  /\ (forall i, (i < length vals)%nat -> comp k (nth (S i) path []) == qsum (firstn (S i) (concat (map (map (comp k)) incs))))
+  /\ last path [] = last vals (vzero d).
+Proof. exact nd_jump_values_path. Qed.
+
+(* the whole path of CouplingLevyCopulaSimulation{WithJumpTimes, MaximumStep}.simulate_one_path_with_coupling (any cap, any fuel): fine and
+   coarse live on the SAME returned times and have equally many columns, and each component of each is exactly the 1-d Markov-chain path
+   (Model/Paths.v jump_path) of that component's increments - so C15_jump_times / C15_cap_whole_path / C15_finer_grid apply to it *)
+Theorem C15_nd_coupled_path : forall d k cap fuel T tms offs fincs cincs, (k < d)%nat -> wf2 d fincs -> wf2 d cincs ->
+  length (nd_jump_values d fincs) = length (nd_jump_values d cincs) ->
+  let '(t, f, c) := nd_coupled_jump_path d cap fuel T (jump_times_of tms offs) fincs cincs in
+  (t, map (comp k) f) = jump_path true cap fuel T tms offs (map (map (comp k)) fincs)
+  /\ (t, map (comp k) c) = jump_path true cap fuel T tms offs (map (map (comp k)) cincs)
+  /\ length f = length c.
+Proof. intros. apply nd_coupled_jump_path_comp; assumption. Qed.
+
+(* MarkovChainLevyCopula.simulate_one_path (jump times, optional cap): component k is the 1-d chain path of component k *)
+Theorem C15_nd_copula_path : forall d k cap fuel T tms offs incs, (k < d)%nat -> wf2 d incs ->
+  let p := nd_jump_path d cap fuel T (jump_times_of tms offs) incs in
+  (fst p, map (comp k) (snd p)) = jump_path true cap fuel T tms offs (map (map (comp k)) incs).
+Proof. exact nd_jump_path_comp. Qed.
+
+(* CouplingLevyCopulaSimulationMaximumStep (helper.py build_finer_grid on fine and coarse (d, n) arrays through refine_up_to_maturity), for
+   0 < eps < T and enough passes: the returned times start at 0, end at T and EVERY step is <= eps (the step to the maturity and jump-free
+   paths included); fine and coarse have one column per returned time (aligned); every component of each is the 1-d capped path *)
+Theorem C15_nd_coupled_cap : forall d N eps T times (fine coarse : list vec), 0 < eps -> eps < T ->
+  length fine = length times -> length coarse = length times ->
+  Forall (fun g => g <= inject_Z (Z.of_nat (S N)) * eps) (gaps (times ++ [T])) ->
+  let '(t, f, c) := coupled_refine_to_maturity_v (vzero d) N eps T times fine coarse in
+  let tt := assemble_times T t in
+  hd 1 tt = 0 /\ last tt 0 = T /\ Forall (fun g => g <= eps) (gaps (tl tt))
+  /\ length f = length t /\ length c = length t
+  /\ forall k, (tt, map (comp k) (nd_assemble_values d f)) = capped_path N eps T times (map (comp k) fine)
+            /\ (tt, map (comp k) (nd_assemble_values d c)) = capped_path N eps T times (map (comp k) coarse).
+Proof. exact nd_coupled_cap. Qed.
+
+(* diffusion of the copula simulators: component k at step j+1 is the running sum of sqrt(dt_i) * (row k of the diffusion matrix . the d
+   normals of step i): each step uses its own column of normals only *)
+Theorem C15_nd_diffusion : forall d k dm sq wcols, length dm = d -> (k < d)%nat ->
+  map (comp k) (nd_diffusion_path d dm sq wcols) = 0 :: cumsum (map2 (fun s w => s * dot (nth k dm []) w) sq wcols).
+Proof. exact nd_diffusion_comp. Qed.
+
+(* the REAL LevyProcess.jump_times_from_nb_of_jumps (np.sort(dt * uniforms), insertion-sort model): pairwise distinct uniforms in (0, 1)
+   give offsets that are strictly increasing inside (0, dt), one per uniform - the hypothesis valid_ivs of C15_jump_times *)
+Theorem C15_real_jump_times : forall dt us, 0 < dt -> Forall (fun u => 0 < u /\ u < 1) us -> distinct us ->
+  let offs := offsets_of_uniforms dt us in
+  incr_from 0 offs /\ Forall (fun o => o < dt) offs /\ length offs = length us.
+Proof. exact offsets_of_uniforms_valid. Qed.
+
 (* non-vacuity *)
 Example C15_nonvacuous :
   fixed_jump_path [[1; 2]; []; [4]] = [0; 0 + 3; 0 + 3 + 0; 0 + 3 + 0 + 4]
@@ -103,10 +174,34 @@ Example C15_nonvacuous :
   /\ (let p := jump_path false (Some (1#2)) 8 1 [0] [[]] [[]] in (map Qred (fst p), map Qred (snd p))) = ([0; 1#2; 1], [0; 0; 0]).
 Proof. vm_compute. repeat split. Qed.
 
+(* non-vacuity of the d-dimensional statements: d = 3, two product intervals with 2 + 1 jumps, cap 1/2 on T = 2 *)
+Example C15_nd_nonvacuous :
+  wf2 3 [[[1; 2; 4]; [1; 0; -4]]; []; [[8; 8; 8]]]
+  /\ nd_fixed_jump_path 3 [[[1; 2; 4]; [1; 0; -4]]; []; [[8; 8; 8]]] = [[0; 0; 0]; [0 + (0 + 1 + 1); 0 + (0 + 2 + 0); 0 + (0 + 4 + -4)];
+        [0 + (0 + 1 + 1) + 0; 0 + (0 + 2 + 0) + 0; 0 + (0 + 4 + -4) + 0]; [0 + (0 + 1 + 1) + 0 + (0 + 8); 0 + (0 + 2 + 0) + 0 + (0 + 8); 0 + (0 + 4 + -4) + 0 + (0 + 8)]]
+  /\ (let '(t, f, c) := nd_coupled_jump_path 2 (Some (1#2)) 8 2 (real_jump_times [0; 1; 2] [[1#2; 1#4]; [1#4]]) [[[1; 2]; [2; 4]]; [[4; 8]]] [[[0; 1]; [1; 1]]; [[2; 0]]] in
+      (map Qred t, map (map Qred) f, map (map Qred) c))
+     = ([0; 1#4; 1#2; 1; 5#4; 7#4; 2], [[0; 0]; [1; 2]; [3; 6]; [3; 6]; [7; 14]; [7; 14]; [7; 14]], [[0; 0]; [0; 1]; [1; 2]; [1; 2]; [3; 2]; [3; 2]; [3; 2]])
+  /\ offsets_of_uniforms 2 [3#4; 1#8; 1#2] = [2 * (1#8); 2 * (1#2); 2 * (3#4)] /\ distinct [3#4; 1#8; 1#2]
+  /\ map (map Qred) (nd_diffusion_path 2 [[1#2; 0]; [1#4; 1#2]] [1; 2] [[1; 2]; [4; 0]]) = [[0; 0]; [1#2; 5#4]; [9#2; 13#4]].
+Proof.
+  split; [repeat constructor|]. split; [reflexivity|]. split; [vm_compute; reflexivity|]. split; [reflexivity|].
+  split; [|vm_compute; reflexivity].
+  cbn [distinct]. repeat split; repeat constructor; intro E; vm_compute in E; discriminate.
+Qed.
+
 Print Assumptions C15_fixed_dates.
 Print Assumptions C15_jump_times.
 Print Assumptions C15_finer_grid.
 Print Assumptions C15_cap_whole_path.
 Print Assumptions C15_finer_grid_returns.
 Print Assumptions C15_finer_grid_aligned.
+Print Assumptions C15_nd_fixed_dates.
+Print Assumptions C15_nd_jump_values.
+Print Assumptions C15_nd_coupled_path.
+Print Assumptions C15_nd_copula_path.
+Print Assumptions C15_nd_coupled_cap.
+Print Assumptions C15_nd_diffusion.
+Print Assumptions C15_real_jump_times.
 Print Assumptions C15_nonvacuous.
+Print Assumptions C15_nd_nonvacuous.
